@@ -92,6 +92,8 @@ type mustUse struct {
 	direct func(fi *FuncInfo, c *ast.CallExpr, match func(ast.Expr) bool) bool
 	memo   map[string]bool
 	open   map[string]bool
+	// Prune optionally removes edges that are irrelevant for the parameter (e.g. the "list is empty" edge)
+	Prune func(fi *FuncInfo, f *Flat, po types.Object) *Flat
 }
 
 func (p *Prog) newMustUse(name string, direct func(fi *FuncInfo, c *ast.CallExpr, match func(ast.Expr) bool) bool) *mustUse {
@@ -132,6 +134,9 @@ func (m *mustUse) Param(fi *FuncInfo, idx int) bool {
 	if po != nil {
 		info := fi.Pkg.TypesInfo
 		f := m.p.FlatOf(fi)
+		if m.Prune != nil {
+			f = m.Prune(fi, f, po)
+		}
 		match := func(e ast.Expr) bool { return objOf(info, e) == po }
 		done := setOf(f.Match(func(n *GNode) bool {
 			for _, c := range callsIn(n.Ast, false) {
